@@ -29,6 +29,11 @@ type c18Scn struct {
 	TSN    uint32  `json:"tsn"`
 	Ops    []c18Op `json:"ops"`
 	PPIs   []int   `json:"ppis,omitempty"` // payload protocol identifiers of successive writes (cyclic)
+	// Plain: successive writes (cyclic) use Write() with the stream's default payload type
+	// instead of WriteSCTP(); DefPPI != 0 sets that default first; PlainRead: reads use Read()
+	Plain     []bool `json:"plain,omitempty"`
+	DefPPI    int    `json:"defppi,omitempty"`
+	PlainRead bool   `json:"plainread,omitempty"`
 }
 
 func genC18(rt *rapid.T) c18Scn {
@@ -44,13 +49,21 @@ func genC18(rt *rapid.T) c18Scn {
 	for i := 0; i < np; i++ {
 		sc.PPIs = append(sc.PPIs, rapid.SampledFrom([]int{53, 53, 53, 50, 50, 51, 56, 57}).Draw(rt, "ppi"))
 	}
+	if rapid.IntRange(0, 2).Draw(rt, "plainapi") == 0 {
+		n := rapid.IntRange(1, 3).Draw(rt, "nplain")
+		for i := 0; i < n; i++ {
+			sc.Plain = append(sc.Plain, rapid.Bool().Draw(rt, "plain"))
+		}
+		sc.DefPPI = rapid.SampledFrom([]int{0, 51, 50, 57}).Draw(rt, "defppi")
+		sc.PlainRead = rapid.Bool().Draw(rt, "plainread")
+	}
 	mm := sc.MaxMsg
 	if mm == 0 {
 		mm = 65536
 	}
 	n := rapid.IntRange(1, 24).Draw(rt, "nops")
 	for i := 0; i < n; i++ {
-		k := rapid.SampledFrom([]string{"w", "w", "w", "w0", "wbig", "wclosed", "r", "r", "rshort", "rdl", "rarr", "settle", "wdl", "wshut"}).Draw(rt, "k")
+		k := rapid.SampledFrom([]string{"w", "w", "w", "w0", "wbig", "wclosed", "r", "r", "rshort", "rdl", "rarr", "settle", "wdl", "wshut", "setmax"}).Draw(rt, "k")
 		op := c18Op{K: k}
 		switch k {
 		case "w":
@@ -75,6 +88,9 @@ func genC18(rt *rapid.T) c18Scn {
 			op.Delta = rapid.SampledFrom([]int{-5000, -1000, -1, 0, 1, 1000, 5000, 300000}).Draw(rt, "delta")
 		case "settle":
 			op.Ms = rapid.SampledFrom([]int{1, 30, 250, 1200}).Draw(rt, "ms")
+		case "setmax":
+			// SetMaxMessageSize at run time: later writes are judged by the new limit
+			op.Size = rapid.SampledFrom([]int{1, 2, 100, 1172, 1173, 3000, 65536}).Draw(rt, "newmax")
 		case "wdl":
 			// also deadlines that are already over when the call is made (negative / zero)
 			op.Ms = rapid.SampledFrom([]int{1, 100, 1500, 1, 100, -50, 0}).Draw(rt, "ms")
@@ -86,12 +102,13 @@ func genC18(rt *rapid.T) c18Scn {
 }
 
 type c18Read struct {
-	done bool
-	n    int
-	ppi  uint32
-	err  error
-	hash uint64
-	at   time.Duration
+	noPPI bool
+	done  bool
+	n     int
+	ppi   uint32
+	err   error
+	hash  uint64
+	at    time.Duration
 }
 
 func runC18(t *testing.T, x c18Scn, verbose bool) (c vfCase) {
@@ -100,6 +117,7 @@ func runC18(t *testing.T, x c18Scn, verbose bool) (c vfCase) {
 	sc.Cfg[1] = vfSideCfg{IL: x.IL, RBuf: x.RBuf, TSN: 900, RTOMax: 2000}
 	sc.NoRead[1] = true
 	mm := sc.Cfg[0].maxMsg()
+	libMax := mm
 	failedBetween, shortOK, dlOK := false, false, false
 	out := vfRunE1(t, &sc, vfE1Opts{verbose: verbose,
 		eval: func(s *vfSim, out *vfE1Out) {
@@ -111,6 +129,9 @@ func runC18(t *testing.T, x c18Scn, verbose bool) (c vfCase) {
 			}
 			if x.Unord {
 				hw.s.SetReliabilityParams(true, ReliabilityTypeReliable, 0)
+			}
+			if x.DefPPI != 0 {
+				hw.s.SetDefaultPayloadType(PayloadProtocolIdentifier(x.DefPPI))
 			}
 			// make the receiving stream exist by sending one message first
 			type msg struct {
@@ -148,7 +169,17 @@ func runC18(t *testing.T, x c18Scn, verbose bool) (c vfCase) {
 				if len(x.PPIs) > 0 {
 					ppi = PayloadProtocolIdentifier(x.PPIs[id%len(x.PPIs)])
 				}
+				plain := len(x.Plain) > 0 && x.Plain[id%len(x.Plain)]
 				id++
+				if plain {
+					// Write() uses the default payload type: the one given to OpenStream unless changed
+					lastPPI = uint32(PayloadTypeWebRTCBinary)
+					if x.DefPPI != 0 {
+						lastPPI = uint32(x.DefPPI)
+					}
+					n, err := st.Write(b)
+					return n, err, b
+				}
 				lastPPI = uint32(ppi)
 				n, err := st.WriteSCTP(b, ppi)
 				return n, err, b
@@ -221,7 +252,15 @@ func runC18(t *testing.T, x c18Scn, verbose bool) (c vfCase) {
 				}
 				go func() {
 					b := make([]byte, buf)
-					n, ppi, err := st.ReadSCTP(b)
+					var n int
+					var ppi PayloadProtocolIdentifier
+					var err error
+					if x.PlainRead {
+						n, err = st.Read(b)
+						r.noPPI = true
+					} else {
+						n, ppi, err = st.ReadSCTP(b)
+					}
 					r.n, r.ppi, r.err, r.at = n, uint32(ppi), err, s.net.now()
 					if err == nil {
 						r.hash = vfHash64(b[:n])
@@ -233,7 +272,7 @@ func runC18(t *testing.T, x c18Scn, verbose bool) (c vfCase) {
 			takeExpected = func(r *c18Read, what string) {
 				for i, m := range expect {
 					if m.hash == r.hash && m.size == r.n {
-						if m.ppi != r.ppi {
+						if !r.noPPI && m.ppi != r.ppi {
 							c.fail("ppi-mismatch", "%s: message written with payload protocol identifier %d was read with %d", what, m.ppi, r.ppi)
 						}
 						if i != 0 && !x.Unord {
@@ -270,9 +309,12 @@ func runC18(t *testing.T, x c18Scn, verbose bool) (c vfCase) {
 							c.fail("empty-write-count", "%s: empty write returned n=%d", what, n)
 						}
 					case "wbig":
+						if op.Size <= libMax {
+							continue // the limit was raised meanwhile: not an oversize write any more
+						}
 						n, err, _ = write(hw.s, op.Size)
 						if !errors.Is(err, ErrOutboundPacketTooLarge) || n != 0 {
-							c.fail("oversize-write-accepted", "%s: write of %d bytes (max %d) returned n=%d err=%v", what, op.Size, mm, n, err)
+							c.fail("oversize-write-accepted", "%s: write of %d bytes (max %d) returned n=%d err=%v", what, op.Size, libMax, n, err)
 						}
 					case "wclosed":
 						hc, e := s.stream(0, 8, PayloadTypeWebRTCBinary)
@@ -329,6 +371,16 @@ func runC18(t *testing.T, x c18Scn, verbose bool) (c vfCase) {
 						failedBetween = true
 						s.o.settle(20 * time.Millisecond)
 					}
+				case "setmax":
+					a0.SetMaxMessageSize(uint32(op.Size))
+					if got := a0.MaxMessageSize(); got != uint32(op.Size) {
+						c.fail("max-message-size", "%s: MaxMessageSize() = %d after SetMaxMessageSize(%d)", what, got, op.Size)
+					}
+					mm, libMax = op.Size, op.Size
+					if x.RBuf != 0 && mm > x.RBuf/2 {
+						mm = x.RBuf / 2 // (generator precondition: messages fit the peer's buffer)
+					}
+					c.class("max-message-size-changed")
 				case "settle":
 					s.o.settle(time.Duration(op.Ms) * time.Millisecond)
 				case "r":
